@@ -20,6 +20,7 @@ import (
 	"time"
 
 	"github.com/hashicorp/memberlist"
+	"go.temporal.io/server/client/history"
 
 	"github.com/temporalio/s2s-proxy/config"
 	"github.com/temporalio/s2s-proxy/encryption"
@@ -256,6 +257,44 @@ func vfMemberlistScenario() (out vfMLOut) {
 			if _, ok := nodes[1].sm.GetLocalShards()[ClusterShardIDtoShortString(x)]; !ok {
 				fail("newest-claim-lost", "n2 made the newest claim but does not list the shard")
 			}
+			validated++
+			// a claim whose local listeners are slow (a receiver handing its pending watermark to a full queue) while the other
+			// instance claims the same shard: the announcement of the older claim carries the older instant, whenever it is
+			// delivered, so the newer claim keeps the shard
+			y := vfShard9(2)
+			gate := make(chan struct{})
+			orig := nodes[0].sm.onLocalShardChange
+			nodes[0].sm.setOnLocalShardChange(func(sh history.ClusterShardID, added bool) {
+				if added && sh == y {
+					<-gate
+				}
+				if orig != nil {
+					orig(sh, added)
+				}
+			})
+			regDone := make(chan struct{})
+			go func() { nodes[0].sm.RegisterShard(y); close(regDone) }()
+			hasY := func(n *inst) bool { _, ok := n.sm.GetLocalShards()[ClusterShardIDtoShortString(y)]; return ok }
+			if !until(func() bool { return hasY(nodes[0]) }) {
+				fail("slow-listener/claim-not-recorded", "n1's RegisterShard did not record the shard")
+				close(gate)
+				return
+			}
+			time.Sleep(200 * time.Millisecond) // (an announcement n1 has already issued reaches n2)
+			nodes[1].sm.RegisterShard(y)
+			until(func() bool { return !hasY(nodes[0]) })
+			close(gate)
+			select {
+			case <-regDone:
+			case <-time.After(30 * time.Second):
+				fail("slow-listener/register-does-not-return", "n1's RegisterShard did not return after its listener was released")
+				return
+			}
+			time.Sleep(time.Second) // whatever n1 announces after its listeners returned has been delivered by now
+			if hasY(nodes[0]) || !hasY(nodes[1]) {
+				fail("slow-listener/newest-claim-lost", fmt.Sprintf("n1 claimed the shard (its listeners were slow), n2 claimed it afterwards: at the end n1 lists it: %v, n2 lists it: %v (the newest claim, n2's, must own it)", hasY(nodes[0]), hasY(nodes[1])))
+			}
+			nodes[0].sm.setOnLocalShardChange(orig)
 			validated++
 			// leave: must complete on the leaving instance and reach the other instance's event delegate
 			leaveDone := make(chan struct{})
